@@ -166,8 +166,8 @@ func (r *Router) handleHTTPRequest(ctx *Context) {
 		ctx.Set(CTXCurrentRouteName, route.name)
 		ctx.Set(CTXCurrentRoutePath, path)
 
-		// append main handler to last
-		handlers = append(route.handlers, route.handler)
+		// append main handler to last. (copy: never write into the route's own slice)
+		handlers = combineHandlers(route.handlers, HandlersChain{route.handler})
 	} else if len(allowed) > 0 { // method not allowed
 		if len(r.noAllowed) == 0 {
 			r.noAllowed = HandlersChain{internal405Handler}
@@ -184,9 +184,9 @@ func (r *Router) handleHTTPRequest(ctx *Context) {
 		handlers = r.noRoute
 	}
 
-	// has global middleware handlers
+	// has global middleware handlers. (copy: never write into the router's own slice)
 	if len(r.handlers) > 0 {
-		handlers = append(r.handlers, handlers...)
+		handlers = combineHandlers(r.handlers, handlers)
 	}
 
 	ctx.SetHandlers(handlers)
